@@ -383,7 +383,22 @@ func checkC08(tier string) {
 			hj.Pre = append(hj.Pre, c08JSON("POST", "/mongo/insert", map[string]interface{}{"k": key, "val": "init-" + key}))
 		}
 		n := 500
-		for i := 0; i < n; i++ {
+		// first use of a table by several requests at once: tables f0..f7 are touched by
+		// nobody before the concurrent phase; every acknowledged row must be there afterwards
+		var freshKeys []string
+		for i := 0; i < 32; i++ {
+			t := fmt.Sprintf("f%d", i/4)
+			key := fmt.Sprintf("%s/r%d", t, i)
+			freshKeys = append(freshKeys, key)
+			val := fmt.Sprintf("fv%d", i)
+			m.reqs = append(m.reqs, c08Req{Req: c08JSON("POST", "/ft/create/"+t, map[string]interface{}{"id": fmt.Sprintf("r%d", i), "val": val}), Op: &c08Op{"db", key, "write", val}})
+		}
+		for i := 32; i < n; i++ {
+			if i%9 == 8 {
+				key := freshKeys[rng.Intn(len(freshKeys))]
+				m.reqs = append(m.reqs, c08Req{Req: HReq{M: "GET", P: "/ft/get/" + key}, Op: &c08Op{"db", key, "read", ""}})
+				continue
+			}
 			if i%5 == 4 { // provider-free requests in the mix: they must not be disturbed either
 				m.reqs = append(m.reqs, c08Pure(rng, i, false))
 			} else {
